@@ -211,7 +211,7 @@ def to_dict(ctx, cfg: Obj):
 
 
 # ----------------------------------------------------------- config lattice
-def tensor_cfgs(ctx, bits, syms, grans, dtypes) -> list[Obj]:
+def tensor_cfgs(ctx, bits, syms, grans, dtypes, block_sizes=(0,)) -> list[Obj]:
   out = []
   G = {g.name: g for g in tables.enum(ctx, 'qtyping:QuantGranularity')}
   D = {d.name: d for d in tables.enum(ctx, 'qtyping:TensorDataType')}
@@ -219,8 +219,9 @@ def tensor_cfgs(ctx, bits, syms, grans, dtypes) -> list[Obj]:
     for s in syms:
       for g in grans:
         for d in dtypes:
-          o = tables.tensor_config(ctx, num_bits=b, symmetric=s,
-                                   granularity=G[g], dtype=D[d])
-          if isinstance(o, Obj):
-            out.append(o)
+          for bs in block_sizes:
+            o = tables.tensor_config(ctx, num_bits=b, symmetric=s,
+                                     granularity=G[g], dtype=D[d], block_size=bs)
+            if isinstance(o, Obj):
+              out.append(o)
   return out
